@@ -151,6 +151,29 @@ func c18Dialer(p *load.Program, r *oblig.Report) {
 		where = "returns at " + p.Pos(bad.Pos()) + " without closing"
 	}
 	r.Check(ok, rule, "kafka.(*Dialer).connect → a failed authentication closes the connection", p.Pos(auth.Pos()), "conn.Close() on the err != nil edge", where)
+	// every failure after the Conn exists closes it (not only a failed authentication: also a host/port that cannot be
+	// parsed for the mechanism's metadata)
+	an.EachInstr(fn, func(ins ssa.Instruction) {
+		call, ok := ins.(*ssa.Call)
+		if !ok || call.Call.StaticCallee() == nil || an.RefFuncName(call.Call.StaticCallee()) != "NewConnWith" {
+			return
+		}
+		q := an.PathQuery{Fn: fn,
+			Stop: func(i ssa.Instruction) bool {
+				c2, isC := i.(*ssa.Call)
+				return isC && isConnClose(&c2.Call)
+			},
+			Target: func(i ssa.Instruction) bool {
+				ret, isR := i.(*ssa.Return)
+				return isR && len(ret.Results) == 2 && an.IsNilConst(an.RetVal(ret, 0)) && ret.Block() != fn.Recover
+			}}
+		hit := q.ReachableFrom(an.PointOf(call))
+		where := ""
+		if hit != nil {
+			where = "the error return at " + p.Pos(hit.Pos()) + " leaves the connection open"
+		}
+		r.Check(hit == nil, rule, "kafka.(*Dialer).connect → every error return after the Conn was created closes it", p.Pos(call.Pos()), "conn.Close() before return nil, err", where)
+	})
 	// between creation and authentication the Conn is used only for authentication and Close
 	var conn ssa.Value
 	an.EachInstr(fn, func(ins ssa.Instruction) {
@@ -531,6 +554,45 @@ func c18RawFramed(p *load.Program, r *oblig.Report) {
 	})
 	r.Check(sent != "" && announced == "int32(len("+sent+"))", rule, "(*Conn).saslAuthenticate → the raw token is prefixed with its own length", pos,
 		"c.wb.writeInt32(int32(len(data))); c.wb.Write(data)", "announces "+announced+", sends "+sent)
+	// both stacks refuse a server token that announces a negative length (a malformed server message must fail the
+	// exchange: readNewBytes would return no bytes and no error, and PLAIN would take that for an answer)
+	for _, site := range []struct{ pkg, fn, callee string }{{"", "(*Conn).saslAuthenticate", "readNewBytes"}, {"protocol/saslauthenticate", "(*Request).readResp", ""}} {
+		f := p.Func(site.pkg, site.fn)
+		if f == nil {
+			r.Lost(rule, site.pkg+"."+site.fn)
+			continue
+		}
+		okNeg := false
+		for _, b := range an.Blocks(f) {
+			_, ci := an.IfCond(b)
+			if ci == nil || (ci.Op != token.LSS && ci.Op != token.GEQ) {
+				continue
+			}
+			if k, isK := an.ConstInt(ci.Y); !isK || k != 0 {
+				continue
+			}
+			x := clean(an.Shape(ci.X))
+			if !(strings.Contains(x, "Uint32(") || strings.Contains(x, "int32")) {
+				continue
+			}
+			// the negative edge returns an error
+			negIdx := 0
+			if ci.Op == token.GEQ {
+				negIdx = 1
+			}
+			if ci.Neg {
+				negIdx = 1 - negIdx
+			}
+			q := an.PathQuery{Fn: f, Target: func(i ssa.Instruction) bool {
+				ret, ok := i.(*ssa.Return)
+				return ok && len(ret.Results) == 2 && an.IsNilConst(an.RetVal(ret, 1))
+			}}
+			if q.ReachableFrom(an.Point{B: b.Succs[negIdx], Idx: -1}) == nil {
+				okNeg = true
+			}
+		}
+		r.Check(okNeg, rule, site.pkg+"."+site.fn+" → a raw server token announcing a negative length fails the exchange", p.Pos(f.Pos()), "if respLen < 0 { return nil, error }", "no such test")
+	}
 }
 
 func c18Loops(p *load.Program, r *oblig.Report) {
